@@ -1634,8 +1634,8 @@ send_task(int whither, echs_task_t t)
 		/* nothing to print */
 		break;
 	case VTOD_TYP_TIMEOUT: {
-		char stmp[32U] = "TIMEOUT:";
-		size_t n = strlenof("TIMEOUT:");
+		char stmp[32U] = "DURATION:";
+		size_t n = strlenof("DURATION:");
 
 		n += idiff_strf(stmp + n, sizeof(stmp) - n, t->timeout);
 		stmp[n++] = '\n';
